@@ -97,6 +97,19 @@ CATALOGUES["ids2"] = dict(version="gfa2", lines=[
     renames=[("a", "5"), ("2", "8"), ("3", "a"), ("4", "9"), ("6", "1")])
 
 
+# topology: components, counters, clean-up operations (C16)
+CATALOGUES["topo1"] = dict(version="gfa1", lines=[
+    "S|A|ACGT", "S|B|*|LN:i:6", "S|C|AC", "S|D|A",
+    "L|A|+|B|+|*", "L|B|+|C|-|1M", "L|A|+|A|+|*", "L|D|+|D|-|*", "L|C|-|A|+|*",
+    "C|A|+|D|+|0|*", "P|p|A+,B+|*",
+], ids=["A", "B", "C", "D"], renames=[("A", "E")], rsc=[3, 7, 20], rsl=True)
+CATALOGUES["topo2"] = dict(version="gfa2", lines=[
+    "S|a|4|*", "S|b|6|*", "S|c|2|*", "S|d|1|*",
+    "E|e1|a+|b+|2|4$|0|2|*", "E|e2|b+|c-|3|6$|1|2$|*", "E|e3|a+|a+|3|4$|0|1|*", "E|*|c+|d+|0|2$|0|1|*",
+    "E|e5|a+|d+|1|2|0|1$|*", "E|e6|b+|d+|1|2|0|1|*", "O|o|a+ e1+ b+", "U|u|c d",
+], ids=["a", "b", "c", "d", "e1"], renames=[("a", "x")], rsc=[2, 7, 20], rsl=True)
+
+
 def text_of(src):
     return src.replace("|", "\t")
 
@@ -113,6 +126,10 @@ def build_ops(cat):
     for ln in cat["lines"]:
         if ln[0] in "LCEGFOUP":
             ops.append(dict(k="disc", text=text_of(ln), id="", id2=""))
+    for n in cat.get("rsc", []):
+        ops.append(dict(k="rsc", text="", id="", id2="", n=n))
+    if cat.get("rsl"):
+        ops.append(dict(k="rsl", text="", id="", id2=""))
     if cat.get("unused"):
         ops.append(dict(k="unused", text="", id="", id2=""))
     for ident, tag in cat.get("tagedits", []):
@@ -174,6 +191,10 @@ def apply_op(gfapy, gfa, op, version):
         gfa.add_line(op["text"])
     elif k == "load":
         return load_entry(gfapy, op, gfa)
+    elif k == "rsc":
+        gfa.remove_small_components(op["n"])
+    elif k == "rsl":
+        gfa.remove_self_links()
     elif k == "unused":
         return ("unused", str(gfa.unused_name()))
     elif k == "query":
@@ -282,7 +303,7 @@ def replay_one(job):
             lidx = pool.add(abstract_input(op["text"]))
         ls = [pool.add(abstract_input(t)) for t in op.get("texts", [])]
         obs = project.observe(gfa, pool, universe)
-        evs.append({"op": {"k": op["k"], "l": lidx, "id": op["id"], "id2": op["id2"], "ls": ls},
+        evs.append({"op": {"k": op["k"], "l": lidx, "id": op["id"], "id2": op["id2"], "ls": ls, "n": op.get("n", 0)},
                     "res": res, "exc": exc, "obs": obs, "qsame": qsame, "qdiff": qdiff})
         if "broken" in obs:
             break
@@ -431,7 +452,7 @@ def catalog_json(catname, depth, cfgversion=None, vlevel=1, ops=None):
         l = 0
         if op["text"]:
             l = pool.add(abstract_input(op["text"]))
-        out.append({"k": op["k"], "l": l, "id": op["id"], "id2": op["id2"]})
+        out.append({"k": op["k"], "l": l, "id": op["id"], "id2": op["id2"], "n": op.get("n", 0)})
     return {"cfg": {"version": ver, "vlevel": vlevel}, "pool": pool.items, "ops": out,
             "depth": depth}, ops
 
